@@ -156,7 +156,7 @@ func genC04(ref core.CaseRef, r *rand.Rand) *c04Case {
 		}
 	}
 	sel = append(sel, "count(*) AS c", "collect(id) AS ids")
-	if c.Window != "global" && ref.Index%3 == 1 {
+	if ref.Index%3 == 1 {
 		// aggregates that take a parameter keep one state per group as well
 		c.Param = true
 		sel = append(sel, "nth_value(id, 2) AS n2", "percentile(id, 0) AS p0")
